@@ -10,8 +10,6 @@
 use vstd::prelude::*;
 verus! {
 //@prelude std_combinators
-pub assume_specification<'a, T: Copy>[Option::<&'a T>::copied](o: Option<&'a T>) -> (r: Option<T>)
-    ensures r == (match o { Some(x) => Some(*x), None => None::<T> });
 pub enum HintErrorKind { ValueStackOverflow, ValueStackUnderflow, InvalidStackValue(i32), Other }
 use HintErrorKind::{ValueStackOverflow, ValueStackUnderflow};
 
